@@ -2,10 +2,11 @@
    id set and the stored consumer offsets - what the properties C01 C02 C03 C07 C14 C16 C18 demand of every observation)
    accepts EVERY run of the partition model: sends, flushes, saves, clean restarts, purges, maintenance passes (expiry- and
    size-based), cache eviction, polls by offset / first / last / next with and without auto-commit, consumer-offset operations,
-   setting changes and white-box dumps.  Side conditions: those of ExpiryHistory.history_E (segment size > 0, offsets and log
-   files below 2^32, send timestamps non-zero and never going backwards), poll counts >= 1, no by-timestamp polls. *)
+   setting changes and white-box dumps - and polls by timestamp.  Side conditions: those of ExpiryHistory.history_E (segment
+   size > 0, offsets and log files below 2^32, send timestamps non-zero and never going backwards, a restart not before the last
+   send), poll counts >= 1. *)
 From IggyV Require Import Base.Tactics Base.ListX Model.Part Model.PartSpec Proofs.PartBasics Proofs.PartHistory Proofs.PartCounts Proofs.CacheHistory
-  Proofs.OffsetsHistory Proofs.DedupHistory Proofs.ReadExact Proofs.ReadPart Proofs.ReadHistory Proofs.ExpiryBasics Proofs.ExpiryHistory.
+  Proofs.OffsetsHistory Proofs.DedupHistory Proofs.ReadExact Proofs.ReadPart Proofs.ReadHistory Proofs.ExpiryBasics Proofs.ExpiryHistory Proofs.TsPolls.
 Open Scope N_scope.
 
 Record Sim (m : mon) (c : cfg) (p : part) : Prop := {
@@ -263,14 +264,26 @@ Definition polled (c : cfg) (p : part) (k : pkind) (count : N) (grp : bool) (cid
   | KNext => poll_next c p grp cid count
   end.
 Definition poll_ok (o : op) : Prop :=
-  match o with OPoll (KTimestamp _) _ _ _ _ => False | OPoll _ count _ _ _ => 1 <= count | _ => True end.
+  match o with OPoll (KTimestamp _) _ _ _ _ => True | OPoll _ count _ _ _ => 1 <= count | _ => True end.
 
-Lemma polled_stored c t p k count grp cid x : E c t p -> poll_ok (OPoll k count grp cid false) ->
+Lemma takeN_in {A} (x : A) : forall l n, In x (takeN n l) -> In x l.
+Proof.
+  induction l as [|y r IH]; intros n H; [contradiction|]. cbn [takeN] in H. destruct (n =? 0); [contradiction|].
+  destruct H as [<-|H]; [left; reflexivity | right; apply (IH _ H)].
+Qed.
+
+Lemma slice_ts_eq m c t p ts count : Sim m c p -> E c t p -> T t p -> slice_ts m ts count = poll_timestamp p ts count.
+Proof.
+  intros HS HE HT. rewrite (poll_timestamp_exact c t p ts count HE HT). unfold slice_ts. rewrite (sim_retained m c p HS (E_J _ _ _ HE)). reflexivity.
+Qed.
+
+Lemma polled_stored c t p k count grp cid x : E c t p -> T t p -> poll_ok (OPoll k count grp cid false) ->
   In x (polled c p k count grp cid) -> In x (part_all p).
 Proof.
-  intros HE Hok Hx. pose proof (e_R _ _ _ HE) as HR. destruct k as [v|v| | |]; cbn [polled poll_ok] in *; try contradiction.
+  intros HE HT Hok Hx. pose proof (e_R _ _ _ HE) as HR. destruct k as [v|v| | |]; cbn [polled poll_ok] in *.
   - destruct (N.ltb_spec (p_cur p) v) as [Hlt|Hge]; [rewrite poll_offset_beyond in Hx by exact Hlt; contradiction|].
     rewrite (poll_offset_exact c p v count HR Hok Hge) in Hx. apply filter_In in Hx. tauto.
+  - rewrite (poll_timestamp_exact c t p v count HE HT) in Hx. apply takeN_in in Hx. unfold tsf in Hx. apply filter_In in Hx. tauto.
   - rewrite (poll_first_exact c p count HR Hok) in Hx. apply filter_In in Hx. tauto.
   - rewrite (poll_last_exact c p count HR Hok) in Hx. apply filter_In in Hx. tauto.
   - unfold poll_next, poll_first in Hx. destruct (assoc cid (offs p grp)) as [o|] eqn:Eo.
@@ -287,17 +300,18 @@ Proof.
   - destruct grp; [reflexivity | exact H8].
 Qed.
 
-Lemma sim_poll m c t p k count grp cid ac : Sim m c p -> E c t p -> poll_ok (OPoll k count grp cid ac) ->
+Lemma sim_poll m c t p k count grp cid ac : Sim m c p -> E c t p -> T t p -> poll_ok (OPoll k count grp cid ac) ->
   let ms := polled c p k count grp cid in
   let p' := match ac, last_opt ms with true, Some x => fst (store_offset p grp cid (m_off x)) | _, _ => p end in
   exists m', mon_step m (OPoll k count grp cid ac, OMsgs (reported_cur p) (map rmsg ms)) = Some m' /\ Sim m' c p'.
 Proof.
-  intros HS HE Hok. cbn zeta.
+  intros HS HE HT Hok. cbn zeta.
   assert (Hok' : poll_ok (OPoll k count grp cid false)) by (destruct k; exact Hok).
   assert (Hwant : match k with KOffset v => slice_offset m v count | KTimestamp v => slice_ts m v count | KFirst => slice_offset m 0 count
                   | KLast => slice_last m count | KNext => slice_next m grp cid count end = polled c p k count grp cid).
-  { destruct k as [v|v| | |]; cbn [polled poll_ok] in *; try contradiction.
+  { destruct k as [v|v| | |]; cbn [polled poll_ok] in *.
     - apply (slice_offset_eq m c t p v count HS HE Hok).
+    - apply (slice_ts_eq m c t p v count HS HE HT).
     - apply (slice_offset_eq m c t p 0 count HS HE Hok).
     - apply (slice_last_eq m c t p count HS HE Hok).
     - apply (slice_next_eq m c t p grp cid count HS HE Hok). }
@@ -306,7 +320,7 @@ Proof.
   destruct (last_opt (polled c p k count grp cid)) as [w|] eqn:El; [|exists m; split; [reflexivity | exact HS]].
   eexists. split; [reflexivity|].
   assert (Hw : In w (part_all p)).
-  { apply (polled_stored c t p k count grp cid w HE Hok'). apply last_opt_split in El. destruct El as [l0 ->]. apply in_or_app. right. left. reflexivity. }
+  { apply (polled_stored c t p k count grp cid w HE HT Hok'). apply last_opt_split in El. destruct El as [l0 ->]. apply in_or_app. right. left. reflexivity. }
   destruct (stored_le_cur p w (e_R _ _ _ HE) (e_O _ _ _ HE) Hw) as [Hle _].
   unfold store_offset. replace (p_cur p <? m_off w) with false by lia. cbn [fst]. rewrite (sim_moffs m c p grp HS). apply sim_set_offs. exact HS.
 Qed.
@@ -385,11 +399,11 @@ Proof.
 Qed.
 
 (* ---------- every operation, every history ---------- *)
-Lemma sim_step m c t p o : 0 < c_seg c -> Sim m c p -> E c t p -> op_time_ok t o -> poll_ok o ->
+Lemma sim_step m c t p o : 0 < c_seg c -> Sim m c p -> E c t p -> T t p -> op_time_ok t o -> poll_ok o ->
   abase (snd (fst (pstep (c, p) o))) <= B32 -> size_ok (snd (fst (pstep (c, p) o))) ->
   exists m', mon_step m (o, snd (pstep (c, p) o)) = Some m' /\ Sim m' (fst (fst (pstep (c, p) o))) (snd (fst (pstep (c, p) o))).
 Proof.
-  intros Hseg HS HE Hto Hpo Hb Hsz. destruct (pstep_E c t p o Hseg HE Hto Hb Hsz) as [HE' _]. pose proof (E_J _ _ _ HE') as HJ'.
+  intros Hseg HS HE HT Hto Hpo Hb Hsz. destruct (pstep_E c t p o Hseg HE Hto Hb Hsz) as [HE' _]. pose proof (E_J _ _ _ HE') as HJ'.
   pose proof (E_J _ _ _ HE) as HJ.
   destruct o as [now ms| | |now|now|now|bytes|expiry mx|k count grp cid ac|grp cid v|grp cid|grp cid|]; cbn [pstep fst snd] in *.
   - destruct (append c p now ms) as [p' r] eqn:Ea. cbn [fst snd] in *. apply (sim_send m c t p now ms p' r HS HE Ea HJ').
@@ -401,7 +415,7 @@ Proof.
   - apply (sim_maintain m c t p now HS HE HJ').
   - exists m. split; [reflexivity|]. destruct (evict_all p bytes) as [A B]. apply (sim_same m c p _ HS HJ HJ' A); reflexivity.
   - eexists. split; [reflexivity|]. destruct HS as [H1 H2 H3 H4 H5 H6 H7 H8]. constructor; cbn [mon_set g_cfg g_all g_lo g_seen g_coffs g_goffs]; try assumption. rewrite H1. reflexivity.
-  - apply (sim_poll m c t p k count grp cid ac HS HE Hpo).
+  - apply (sim_poll m c t p k count grp cid ac HS HE HT Hpo).
   - destruct (store_offset p grp cid v) as [p' r] eqn:Eo. cbn [fst snd]. pose proof (sim_store m c t p grp cid v HS HE) as X. rewrite Eo in X. exact X.
   - exists m. split; [apply (sim_get m c p grp cid HS) | exact HS].
   - destruct (delete_offset p grp cid) as [p' r] eqn:Eo. cbn [fst snd]. pose proof (sim_delete m c p grp cid HS) as X. rewrite Eo in X. exact X.
@@ -411,18 +425,18 @@ Qed.
 Lemma prun_cons cp o r : prun cp (o :: r) = snd (pstep cp o) :: prun (fst (pstep cp o)) r.
 Proof. cbn [prun]. destruct (pstep cp o) as [cp' x]. reflexivity. Qed.
 
-Theorem mon_run_accepts : forall ops m c t p i, 0 < c_seg c -> Sim m c p -> E c t p -> times_ok t ops -> Forall poll_ok ops ->
+Theorem mon_run_accepts : forall ops m c t p i, 0 < c_seg c -> Sim m c p -> E c t p -> T t p -> times_ok t ops -> Forall poll_ok ops ->
   Forall bounds_ok (prun_states (c, p) ops) ->
   exists m', mon_run m (combine ops (prun (c, p) ops)) i = inr m'.
 Proof.
-  induction ops as [|o r IH]; intros m c t p i Hseg HS HE Ht Hp Hb; [exists m; reflexivity|].
+  induction ops as [|o r IH]; intros m c t p i Hseg HS HE HT Ht Hp Hb; [exists m; reflexivity|].
   rewrite prun_cons. cbn [combine mon_run]. rewrite prun_states_cons in Hb. destruct Ht as [Ht Htr].
   pose proof (Forall_inv Hp) as Hp1. pose proof (Forall_inv_tail Hp) as Hp2.
   pose proof (Forall_inv Hb) as Hb1. pose proof (Forall_inv_tail Hb) as Hb2. destruct Hb1 as [Hb1 Hs1].
-  destruct (sim_step m c t p o Hseg HS HE Ht Hp1 Hb1 Hs1) as [m' [Em HS']]. rewrite Em.
-  destruct (pstep_E c t p o Hseg HE Ht Hb1 Hs1) as [HE' Hc'].
+  destruct (sim_step m c t p o Hseg HS HE HT Ht Hp1 Hb1 Hs1) as [m' [Em HS']]. rewrite Em.
+  destruct (pstep_E c t p o Hseg HE Ht Hb1 Hs1) as [HE' Hc']. pose proof (pstep_T c t p o HE HT Ht) as HT'.
   destruct (fst (pstep (c, p) o)) as [c' p']. cbn [fst snd] in *.
-  apply (IH m' c' (op_time t o) p' (i + 1)); [lia | exact HS' | exact HE' | exact Htr | exact Hp2 | exact Hb2].
+  apply (IH m' c' (op_time t o) p' (i + 1)); [lia | exact HS' | exact HE' | exact HT' | exact Htr | exact Hp2 | exact Hb2].
 Qed.
 
 Lemma Sim_new c t0 : Sim (mon_init c) c (part_new c t0).
@@ -436,5 +450,5 @@ Theorem model_refines_spec : forall ops c t0, 0 < c_seg c -> times_ok 0 ops -> F
   Forall bounds_ok (prun_states (c, part_new c t0) ops) -> model_check c t0 ops = 0.
 Proof.
   intros ops c t0 Hseg Ht Hp Hb. unfold model_check, mon_check, prun0.
-  destruct (mon_run_accepts ops (mon_init c) c 0 (part_new c t0) 0 Hseg (Sim_new c t0) (E_new c t0) Ht Hp Hb) as [m' ->]. reflexivity.
+  destruct (mon_run_accepts ops (mon_init c) c 0 (part_new c t0) 0 Hseg (Sim_new c t0) (E_new c t0) (T_new c t0) Ht Hp Hb) as [m' ->]. reflexivity.
 Qed.
